@@ -307,7 +307,10 @@ class ProjectConfig:
             try:
                 text = path.read_text(encoding="utf-8")
             except UnicodeDecodeError as err:
-                error_line = path.read_bytes()[: err.start].count(b"\n")
+                # Lines as read_text() splits them everywhere else: a lone "\r" ends a line too
+                error_line = len(
+                    re.findall(rb"\r\n|\r|\n", path.read_bytes()[: err.start])
+                )
                 return ("", [CannotOpenFile(None, str(err), error_line)])
             except OSError as err:
                 # e.g. a dangling symlink, or a file we are not allowed to read
